@@ -146,3 +146,123 @@ Theorem murmur3_table_fetch_modes fm has_columns r1 r2 ks t name chunks :
 Proof.
   intros [->|[-> ->]] H He Hb; cbn [session_partitioner]; apply murmur3_table_last_row; assumption.
 Qed.
+
+(* ===== exact characterisations (deepening round 3) ===== *)
+
+(* ---- from_str: exact characterisation ---- *)
+Theorem from_str_cdc_iff s : partitioner_from_str s = Some PCdc <-> ends_with s cdc_suffix = true.
+Proof.
+  split; [|apply from_str_cdc]. unfold partitioner_from_str.
+  destruct (ends_with s murmur3_suffix); [discriminate|].
+  destruct (ends_with s cdc_suffix); [reflexivity|discriminate].
+Qed.
+
+Theorem from_str_murmur3_iff s : partitioner_from_str s = Some PMurmur3 <-> ends_with s murmur3_suffix = true.
+Proof.
+  split; [|apply from_str_murmur3]. unfold partitioner_from_str.
+  destruct (ends_with s murmur3_suffix); [reflexivity|].
+  destruct (ends_with s cdc_suffix); discriminate.
+Qed.
+
+Theorem from_str_none_iff s : partitioner_from_str s = None <->
+  ends_with s cdc_suffix = false /\ ends_with s murmur3_suffix = false.
+Proof.
+  unfold partitioner_from_str. destruct (ends_with s murmur3_suffix) eqn:Em.
+  - split; [discriminate|intros [_ H]; discriminate].
+  - destruct (ends_with s cdc_suffix); split; try discriminate; try (intros [H _]; discriminate); auto.
+Qed.
+
+Theorem table_partitioner_cdc_iff name : table_partitioner name = PCdc <->
+  exists s, name = Some s /\ ends_with s cdc_suffix = true.
+Proof.
+  unfold table_partitioner. destruct name as [s|].
+  - destruct (partitioner_from_str s) as [[|]|] eqn:E.
+    + split; [discriminate|]. intros (s' & Hs & He). inversion Hs; subst s'.
+      apply from_str_cdc_iff in He. congruence.
+    + split; [|reflexivity]. intros _. exists s. split; [reflexivity|]. apply from_str_cdc_iff. exact E.
+    + split; [discriminate|]. intros (s' & Hs & He). inversion Hs; subst s'.
+      apply from_str_cdc_iff in He. congruence.
+  - split; [discriminate|]. intros (s & Hs & _). discriminate.
+Qed.
+
+(* ---- the HashMap lookup: exact characterisation ("the last row of the table") ---- *)
+Lemma partitioners_get_acc rows ks t : forall acc,
+  partitioners_get rows ks t acc =
+  match partitioners_get rows ks t None with Some p => Some p | None => acc end.
+Proof.
+  induction rows as [|[[k n] p] r IH]; intros acc; cbn [partitioners_get]; [reflexivity|].
+  destruct (String.eqb k ks && String.eqb n t)%bool.
+  - rewrite (IH (Some p)). destruct (partitioners_get r ks t None); reflexivity.
+  - apply IH.
+Qed.
+
+Theorem partitioners_get_some_iff rows ks t p :
+  partitioners_get rows ks t None = Some p <->
+  exists r1 r2, rows = (r1 ++ ((ks, t), p) :: r2)%list /\
+                forallb (fun x => negb (row_is ks t x)) r2 = true.
+Proof.
+  split.
+  - revert p. induction rows as [|[[k n] q] r IH]; intros p H; cbn [partitioners_get] in H; [discriminate|].
+    destruct (String.eqb k ks && String.eqb n t)%bool eqn:E.
+    + rewrite partitioners_get_acc in H.
+      destruct (partitioners_get r ks t None) as [p'|] eqn:Er.
+      * inversion H; subst p'. destruct (IH p eq_refl) as (r1 & r2 & Hr & Hn).
+        exists (((k, n), q) :: r1), r2. split; [rewrite Hr; reflexivity|exact Hn].
+      * inversion H; subst q. apply andb_true_iff in E as [Ek En].
+        apply String.eqb_eq in Ek, En. subst k n.
+        exists [], r. split; [reflexivity|].
+        clear IH H. induction r as [|[[k' n'] q'] r IHr]; [reflexivity|].
+        cbn [partitioners_get] in Er. cbn [forallb]. unfold row_is at 1. cbn [fst snd].
+        destruct (String.eqb k' ks && String.eqb n' t)%bool eqn:E'.
+        -- rewrite partitioners_get_acc in Er. destruct (partitioners_get r ks t None); discriminate.
+        -- cbn [negb andb]. apply IHr. exact Er.
+    + destruct (IH p H) as (r1 & r2 & Hr & Hn).
+      exists (((k, n), q) :: r1), r2. split; [rewrite Hr; reflexivity|exact Hn].
+  - intros (r1 & r2 & -> & Hn). apply partitioners_get_last_row. exact Hn.
+Qed.
+
+Theorem partitioners_get_none_iff rows ks t :
+  partitioners_get rows ks t None = None <-> forallb (fun x => negb (row_is ks t x)) rows = true.
+Proof.
+  split.
+  - induction rows as [|[[k n] q] r IH]; intros H; [reflexivity|].
+    cbn [partitioners_get] in H. cbn [forallb]. unfold row_is at 1. cbn [fst snd].
+    destruct (String.eqb k ks && String.eqb n t)%bool.
+    + rewrite partitioners_get_acc in H. destruct (partitioners_get r ks t None); discriminate.
+    + cbn [negb andb]. apply IH. exact H.
+  - intros H. apply partitioners_get_nomatch. exact H.
+Qed.
+
+(* ---- which partitioner a Session gives a prepared statement: exact characterisation ---- *)
+Theorem session_partitioner_cdc_iff fm st in_tables has_columns spec :
+  session_partitioner fm st in_tables has_columns spec = PCdc <->
+  (fm = FetchMinimal \/ (fm = FetchFull /\ has_columns = true)) /\ in_tables = true /\
+  exists rows ks t r1 r2 name,
+    st = Some rows /\ spec = Some (ks, t) /\
+    rows = (r1 ++ ((ks, t), Some name) :: r2)%list /\
+    forallb (fun x => negb (row_is ks t x)) r2 = true /\ ends_with name cdc_suffix = true.
+Proof.
+  assert (Hpp : prepared_partitioner st in_tables spec = PCdc <->
+    in_tables = true /\ exists rows ks t r1 r2 name,
+      st = Some rows /\ spec = Some (ks, t) /\ rows = (r1 ++ ((ks, t), Some name) :: r2)%list /\
+      forallb (fun x => negb (row_is ks t x)) r2 = true /\ ends_with name cdc_suffix = true).
+  { unfold prepared_partitioner. destruct spec as [[ks t]|].
+    - destruct in_tables.
+      + rewrite table_partitioner_cdc_iff. unfold table_meta_partitioner. split.
+        * intros (s & Hs & He). destruct st as [rows|]; [|discriminate].
+          destruct (partitioners_get rows ks t None) as [p|] eqn:Eg; [|discriminate]. subst p.
+          apply partitioners_get_some_iff in Eg as (r1 & r2 & Hr & Hn).
+          split; [reflexivity|]. exists rows, ks, t, r1, r2, s. repeat split; assumption.
+        * intros (_ & rows & ks' & t' & r1 & r2 & name & -> & Hsp & Hr & Hn & He).
+          inversion Hsp; subst ks' t'. exists name. split; [|exact He].
+          rewrite (proj2 (partitioners_get_some_iff rows ks t (Some name))); [reflexivity|].
+          exists r1, r2. split; assumption.
+      + split; [discriminate|intros [H _]; discriminate].
+    - split; [discriminate|]. intros (_ & rows & ks & t & r1 & r2 & name & _ & H & _). discriminate. }
+  destruct fm; cbn [session_partitioner].
+  - split; [discriminate|]. intros ([H|[H _]] & _); discriminate.
+  - rewrite Hpp. split; [intros H; split; [left; reflexivity|exact H]|intros [_ H]; exact H].
+  - destruct has_columns.
+    + rewrite Hpp. split; [intros H; split; [right; split; reflexivity|exact H]|intros [_ H]; exact H].
+    + split; [discriminate|]. intros ([H|[_ H]] & _); discriminate.
+Qed.
